@@ -137,3 +137,28 @@ add("C20",
     "Render/MakeStr of the map the code reports and parses the code's unit string back; every unit and category of the table is checked for the "
     "simple-quantity strings.",
     _QNOTE + " Atoms are table symbols that the grammar does not decompose and that do not end in a digit.", "DESIGN.md 6/C20")
+
+add("C12",
+    "TLC enumeration of the validation laws (Validation.tla: CheckValue, NaN-skipping array scan, tuple branch vs the per-element statement) + "
+    "replay of every predicted verdict on Scalar / FractionScalar / Array containers + TLC trace validation of long arrays",
+    "Validation.tla transcribes CheckValue and the Array validation and states the property independently (per element, in the default unit, "
+    "NaN skipped in flat arrays, a NaN scalar satisfies no limit; a rejection names an operator/limit some element violates). TLC checks "
+    "the scalar, array and tuple laws over 16 limit configurations x 3 units (default, scaled, affine) x 11 values (NaN, +-inf, on / next to / "
+    "away from the limits) x all sequences of length <= 3 (every order), and rejects the negative control (infinities converted to NaN). "
+    "Every predicted verdict is replayed on a fresh database: Scalar, FractionScalar, Array in list / tuple / ndarray / tuple-of-tuples "
+    "containers; verdict, reported operator and limit compared; each validated array is re-created under a category with other limits "
+    "(cached verdict) and asked twice; long NaN-rich arrays are recorded and judged by TLC.",
+    "Units with conversions exact in binary so that amounts exactly on a limit are decidable. 'Registering a category never yields an invalid "
+    "default' is decided by C14 (Well_Cats, Inv_Buildable).", "DESIGN.md 6/C12")
+add("C18",
+    "TLC as the oracle: exact rational table of every Fraction operator (Fraction.tla / MC_C18.tla) replayed on barril.basic.fraction + TLC "
+    "trace validation of CreateFromFloat, format/parse, copy and FractionScalar-vs-Scalar routes",
+    "TLC computes with exact rationals the result of + - * / % neg abs inv ** and the comparison of every ordered pair of a pool of 108 "
+    "fractions (numerators -6..6, denominators 1..8, short decimals), and the amount and order of 63 x 63 FractionValues; the code is run on "
+    "every row (Fraction operands, plain numbers on either side, the decimal-normalising constructor) and compared exactly. Seeded "
+    "CreateFromFloat inputs (up to 8 significant decimals, exponents -8..3) are recorded and judged by TLC on nine significant digits "
+    "(plus |fraction| < 1, sign rule); format-then-parse and copy must return the same parts; a history that changes a FractionValue's "
+    "fraction in place after reading it is checked; FractionScalar conversion / CreateCopy / ordering is compared with a Scalar holding "
+    "float(value) over unit pairs of every quantity type of the real table (affine units included), judged by TLC.",
+    "FractionScalar validation is covered by C12. The continued-fraction algorithm and the parsing regular expression are not transcribed; "
+    "their post-conditions are.", "DESIGN.md 6/C18")
